@@ -40,7 +40,15 @@ fn diff_context(want: &str, got: &str) -> String {
 }
 
 pub fn check_module(m: &Module, layout: Layout) -> Option<(String, String, String)> {
-    let printed = print_module(m, layout);
+    check_module_eol(m, layout, false)
+}
+
+/// `crlf`: every line break of the printed program is CR LF (legal whitespace like LF).
+pub fn check_module_eol(m: &Module, layout: Layout, crlf: bool) -> Option<(String, String, String)> {
+    let mut printed = print_module(m, layout);
+    if crlf {
+        printed.text = printed.text.replace('\n', "\r\n");
+    }
     let want = sx_module(m);
     let r = catch(|| {
         let p = syntax::parse_module(&printed.text);
@@ -74,6 +82,15 @@ fn run_layer(rep: &mut Report, name: &str, mods: &[Module], layouts: &[Layout], 
                 n += 1;
                 if let Some((class, key, detail)) = check_module(m, l) {
                     v.push(Violation { class, key, witness: json!({"module_sexp": sx_module(m), "layout": format!("{l:?}"), "text": print_module(m, l).text}), detail: format!("[{l:?}] {detail}") });
+                }
+                // the layouts that break lines, once more with CR LF line breaks
+                if matches!(l, Layout::Lines | Layout::Comments) {
+                    n += 1;
+                    if let Some((class, key, detail)) = check_module_eol(m, l, true) {
+                        if v.len() < 4 {
+                            v.push(Violation { class, key, witness: json!({"module_sexp": sx_module(m), "layout": format!("{l:?}"), "crlf": true, "text": print_module(m, l).text.replace('\n', "\r\n")}), detail: format!("[{l:?}, CR LF line breaks] {detail}") });
+                        }
+                    }
                 }
             }
             (n, v)
